@@ -353,7 +353,7 @@ class P(Prop):
             "2^k-1, 2^k, 2^k+1 for 128 <= 2^k <= 4096, and 1000, 3000, 5000 - through writeToFile / writeToCsv / the default call, with and without feature columns and "
             "read_all; GPX tracks of 129 .. 4097 points (a third with extensions), GPX collections of 33 / 129 tracks and of two tracks of 2049 points; chain networks "
             "of 129 .. 4097 edges and edges of 129 .. 2049 vertices; WKT texts of 129 .. 5000 vertices; files of 129 / 1025 WKT lines; collections of 10 - 34 tracks "
-            "written one file per track (two-digit file indices); lines of 10 - 20 feature columns (thorough: every size in every stream, collections of up to 130 "
+            "written one file per track (two-digit file indices); lines of 10 - 20 feature columns; feature values, track names and edge / node identifiers of 300 and 5000 characters (thorough: every size in every stream, collections of up to 130 "
             "tracks). Every multi-operation case runs in a child "
             "forked from a process that never executed library code, single-operation cases in one long-lived child (a failure there is re-run in a fresh child): a "
             "reported failing input fails again alone. non-trivial = at least one non-zero coordinate or a timestamp other than the epoch")
@@ -698,6 +698,23 @@ class P(Prop):
                               n=rng.choice([1, 2, 3]), read_all=rng.random() < 0.7)
             c["af_names"] = ["c%d" % i for i in range(naf)]
             c["afs"] = [[af_safe(self.rand_af(rng, True), c["sep"]) for _ in range(naf)] for _ in c["rows"]]
+            out.append(c)
+        # --- long fields: a feature value / a track name / an edge or node identifier of hundreds to thousands of characters
+        for m in (300, 5000) if not thorough else (255, 256, 257, 1023, 1024, 1025, 4095, 4096, 4097, 8193, 20000):
+            c = self.csv_case(rng, rng.choice(L), rng.choice([",", ";", "|", "\t"]), 1, rng.choice(SRIDS), pfmt=rng.choice([DEFAULT_FMT, ISO_FMT]),
+                              n=2, read_all=rng.random() < 0.7)
+            c["af_names"] = ["note", "k&"]
+            c["afs"] = [[["S", ("walk_" * (m // 5 + 1))[:m]], 7], [["S", "x"], ["S", "y" * m]]]
+            out.append(c)
+            rows, q = self.rand_rows(rng, "GEO", n=2, q=8)
+            out.append({"kind": "gpx", "srid": "GEO", "q": q, "rows": rows, "rfmt": ISO_FMT, "tid": ("trace-" * (m // 6 + 1))[:m]})
+            c = self.net_case(rng, sep=rng.choice([",", ";"]), loose=False)
+            ren = {}
+            m = min(m, 4097)        # (the model's csv state machine is quadratic in the length of a cell)
+            for e in c["edges"]:
+                for key in ("src", "tgt"):
+                    e[key] = ren.setdefault(e[key], (e[key] + "_") * (m // (len(e[key]) + 1)) + "n")
+            c["edges"][0]["id"] = ("E%d-" % m) * (m // 6 + 1)
             out.append(c)
         # --- collections of many tracks: one file per track, track_output_0.csv .. track_output_<k>.csv
         for k in (9, 10, 11, 33) if not thorough else (9, 10, 11, 33, 99, 100, 101, 129):
